@@ -5,11 +5,11 @@ sys.path.insert(0, os.path.join(os.path.dirname(os.path.abspath(__file__)), ".."
 import yv
 
 
-def run_rule_cases(variant, groups, wd, name, flags=0, extra_lines_before=(), hang=60):
+def run_rule_cases(variant, groups, wd, name, flags=0, extra_lines_before=(), hang=60, extra_cflags=""):
     """groups: list of dict(src=rule source text (bytes/str), ns=None, bufs=[bytes...], externals=[(t,id,val)]).
     Every group is compiled alone, every buffer scanned with yr_scanner_scan_mem.
     Returns (run, per_group) where per_group[g] = dict(compile=event, scans=[{rule name: {string id: [[off,len,key,priv]]}, ...}], rets=[..])."""
-    exe = yv.driver(variant)
+    exe = yv.driver(variant, extra_cflags)
     lines = ["init", "opt iterlog 0"]
     lines += list(extra_lines_before)
     for gi, g in enumerate(groups):
@@ -25,6 +25,8 @@ def run_rule_cases(variant, groups, wd, name, flags=0, extra_lines_before=(), ha
         if g.get("flags", flags):
             lines.append("sflags 0 %d" % g.get("flags", flags))
         for bi, b in enumerate(g["bufs"]):
+            for ln in (g.get("scan_pre") or [[]] * len(g["bufs"]))[bi]:
+                lines.append(ln)
             lines.append("data 1 %s" % yv.hx(b))
             lines.append("scan 0 1 mem - - -")
         lines.append("sdestroy 0")
@@ -48,16 +50,25 @@ def run_rule_cases(variant, groups, wd, name, flags=0, extra_lines_before=(), ha
         elif e == "ScanCall":
             cur["scans"].append({})
         elif e == "Cb" and ev["msg"] in ("match", "nomatch") and cur["scans"]:
-            cur["scans"][-1][ev["rule"]] = {"verdict": ev["msg"] == "match", "strings": {s["id"]: s["m"] for s in ev.get("strings", [])}}
+            strs = {}
+            for s in ev.get("strings", []):       # the pieces of a chained string share its identifier
+                strs.setdefault(s["id"], [])
+                strs[s["id"]] = sorted(strs[s["id"]] + s["m"])
+            cur["scans"][-1][ev["rule"]] = {"verdict": ev["msg"] == "match", "strings": strs}
         elif e == "ScanRet":
             cur["rets"].append(ev["ret"])
     return run, per
 
 
 def tlc_judge(records, wd, name, nproc=14):
-    """Judge case records with FuncTrace.tla; returns sorted list of indexes (into records) that TLC rejected."""
+    bad, known, states = tlc_judge2(records, wd, name, nproc)
+    return sorted(bad + [i for i, k in known]), states
+
+
+def tlc_judge2(records, wd, name, nproc=14):
+    """Judge case records with FuncTrace.tla; returns (rejected indexes, [(index, known finding id)], states)."""
     if not records:
-        return [], 0
+        return [], [], 0
     nproc = max(1, min(nproc, (len(records) + 199) // 200))
     chunks = [records[i::nproc] for i in range(nproc)]
     idx = [list(range(len(records)))[i::nproc] for i in range(nproc)]
@@ -67,16 +78,19 @@ def tlc_judge(records, wd, name, nproc=14):
         yv.write_ndjson(tp, chunks[ci])
         r = yv.tlc("FuncTrace", "FuncTrace.cfg", os.path.join(wd, "tlc_%s_%d" % (name, ci)), env={"TRACE": tp}, workers=1,
                    coverage=False, xmx="3g")
-        m = re.search(r'<<"BAD", (\{[^}]*\})>>', r["out"])
+        m = re.search(r'<<\s*"BAD",\s*(\{[^}]*\})\s*>>', r["out"])
         if not m:
             raise yv.Broken("FuncTrace did not finish on %s:\n%s" % (tp, r["out"][-3000:]))
         s = m.group(1).strip("{} ")
         bad = [int(x) for x in s.split(",")] if s else []
-        return [idx[ci][b - 1] for b in bad], r["distinct"]
+        mk = re.search(r'<<\s*"KNOWN",\s*(\{.*?\})\s*>>\s*\n', r["out"], re.S)
+        known = [(idx[ci][int(a) - 1], b) for a, b in re.findall(r'<<\s*(\d+),\s*"(\w+)"\s*>>', mk.group(1))] if mk else []
+        return [idx[ci][b - 1] for b in bad], known, r["distinct"]
 
-    allbad, states = [], 0
+    allbad, allknown, states = [], [], 0
     with cf.ThreadPoolExecutor(nproc) as ex:
-        for bad, st in ex.map(one, range(nproc)):
+        for bad, known, st in ex.map(one, range(nproc)):
             allbad += bad
+            allknown += known
             states += st
-    return sorted(allbad), states
+    return sorted(allbad), sorted(allknown), states
